@@ -14,6 +14,7 @@ ORACLES = {
     'refine': orc.refine,
     'warmup': orc.warmup,
     'graft': orc.graft,
+    'roots64': orc.roots64,
 }
 
 
